@@ -159,6 +159,14 @@ def judge(cmd, fault, o, base):
             out.append(('bad-linenum', 'diagnostic names line %s of a %d-line file: %s' % (m.group(1), nlines, l[:200]), {}))
             break
     if fault is None:
+        exp = cmd.get('expect')
+        if exp == 'accept' and st != 0:
+            out.append(('limit-boundary', 'input within the declared limit refused: %s; %r' % (where, (dl or [''])[0][:160]), {'expect': exp}))
+        elif exp and exp.startswith('refuse:'):
+            if st == 0:
+                out.append(('limit-boundary', 'input beyond the declared internal limit accepted with status 0 (expected a "%s" diagnostic)' % exp[7:], {'expect': exp}))
+            elif not any(exp[7:] in l for l in dl):
+                out.append(('limit-boundary', 'input beyond the declared limit refused, but not with a "%s" diagnostic: %r' % (exp[7:], (dl or [''])[0][:160]), {'expect': exp}))
         if st == 0:
             for w in runner.requested(cmd):
                 if w == 'scanner' and cmd['outs'].get('scanner') == 'stdout':
@@ -290,10 +298,39 @@ def corpus():
     return _CORPUS
 
 
+_MAX_RULE = None
+
+
+def max_rule():
+    """the rule-count limit the working tree declares (flexdef.h: MAX_RULE = YY_TRAILING_MASK - 1)"""
+    global _MAX_RULE
+    if _MAX_RULE is None:
+        txt = open(os.path.join(common.REPO, 'src', 'flexdef.h'), errors='replace').read()
+        m = re.search(r'#define\s+YY_TRAILING_MASK\s+(0x[0-9a-fA-F]+|\d+)', txt)
+        r = re.search(r'#define\s+MAX_RULE\s+\(YY_TRAILING_MASK\s*-\s*1\)', txt)
+        _MAX_RULE = (int(m.group(1), 0) - 1) if (m and r) else 0
+    return _MAX_RULE
+
+
+def rule_limit_sweep():
+    """total rule counts (explicit rules + the default rule) on both sides of the declared limit: at or
+    below it flex must accept, above it flex must refuse and say so.  -Ca lifts the NFA-size limit, which
+    would otherwise be reached first."""
+    lim = max_rule()
+    out = []
+    if not lim:
+        return out
+    for total in list(range(lim - 2, lim + 13)) + [lim + 99, lim + 100, lim + 101, lim + 250]:
+        n = total - 1
+        data = b'%%\n' + b''.join(b'k%05d ;\n' % i for i in range(n))
+        out.append(('rule-limit-%+d' % (total - lim), data, ['-Ca'], 'accept' if total <= lim else 'refuse:too many rules'))
+    return out
+
+
 def directed_inputs(thorough=False):
     """hand-written inputs that drive flex into each internal limit (independent of the seed)"""
     kw = b''.join(b'kw%dz { return %d; }\n' % (i, i) for i in range(9000))
-    return [
+    return rule_limit_sweep() + [
         ('too-many-rules', b'%%\n' + b'a ;\n' * 8200, []),
         ('rules-just-below-limit', b'%%\n' + b'a ;\n' * 8190, []),
         ('nfa-too-large', b'%%\n((a{1,1000}){1,1000}) ;\n', []),
@@ -397,9 +434,11 @@ def work_robust(env, idx, rundir):
 
 def work_directed(env, idx, rundir):
     res = TaskResult()
-    name, data, opts = directed_inputs(True)[idx]
+    name, data, opts, *rest = directed_inputs(True)[idx]
     for outs in ({'scanner': 'stdout'}, {'scanner': 'file', 'header': True, 'tables': True, 'backup': 'file'}):
         cmd = {'input': data, 'opts': list(opts), 'outs': outs}
+        if rest:
+            cmd['expect'] = rest[0]
         o, vs = run_judged(env, rundir, cmd, None, None, res)
         res.evaluations += 1
         res.inputs.add(hashlib.sha1(data).hexdigest()[:16])
@@ -526,7 +565,7 @@ def work_fault(env, idx, rundir):
 
 # ------------------------------------------------------------------ pipeline hooks
 SHRINK = True
-NO_SHRINK_CLASSES = ('hang',)      # every test of a hang costs minutes
+NO_SHRINK_CLASSES = ('hang', 'limit-boundary')      # every test of a hang costs minutes; the expectation of a limit-boundary case is a function of the whole input
 GATE_RUNS = {'hang': 1}            # the detection itself already ran it twice (10 s cap, then 300 s cap)
 SHRINK_BUDGET = 30       # rechecks; a recheck is one or two flex runs
 
